@@ -31,7 +31,8 @@ def run(tier, seed, replay=None):
     def g(rng, i):
         if i % 4 == 3:
             return gen.gen_match_program(rng, size="medium")
-        return gen.gen_class_program(rng, size="small" if i % 2 else "medium")
+        # every fifth program is compiled with -g and has members naming code points the font lacks (runs of them)
+        return gen.gen_class_program(rng, size="small" if i % 2 else "medium", bad_glyphs=(i % 5 == 4))
     cases = harness.gen_cases(seed, 4, n, g)
     results = harness.compile_cases(build, work, cases)
     acc, rej = harness.split_accepted(results)
